@@ -10,4 +10,9 @@ Reg const r_peg{"peg_dynamic_wchar", Kind::random,
                 [] { run_random(*g_cur.sec, {30000, 40}, {120000, 48}); },
                 [](Ints const &c) { c02::real<wchar_t>::run_case(c, "wchar_t"); },
                 [](Ints const &c) { return c02::describe(c, "wchar_t"); }};
+Reg const r_long{"peg_long_inputs_wchar", Kind::exhaustive,
+                 "every case (inputs of 0..2000 characters / bracket depth up to 300 / up to 2000 earlier parses through the same parser objects, over grammars with a type-erased rule that fails and is backtracked over)",
+                 [] { c02::long_run<wchar_t>("wchar_t"); },
+                 [](Ints const &c) { c02::long_one<wchar_t>(c, "wchar_t"); },
+                 [](Ints const &c) { return c02::long_describe(c, "wchar_t"); }};
 }
